@@ -561,6 +561,8 @@ def judge_records(ctx, recs):
     for r in recs:
         st = r["status"]
         lab = rec_label(r)
+        if st.startswith("infra_error"):
+            raise InfraError(f"search X: {r['instr']}#{r['case']}: {r['detail']}")
         ctx.count(f"exec:{st.split(':')[0]}" + (f"[{lab}]" if lab else ""))
         n_in = max(1, len(r.get("inputs") or []))
         if st == "ok":
@@ -728,4 +730,7 @@ def run(ctx):
                   "opaque": i["n_opaque"], "unknown_intrinsics": i["unknown"]}
         ctx.count(f"coverage:{state}")
     ctx.extra["coverage_table"] = cov
+    if changed:
+        # leave the accepted generated file behind (the next run regenerates from the live library anyway)
+        tr.restore_baseline()
     ctx.extra["search_only"] = [n for n, c in cov.items() if c["status"] == "search only"]
